@@ -15,6 +15,7 @@ RULE = ("attribute objects of all 13 schemas (message, image, contact, location,
         "distribution, protocol/revoke, message key, context info) with every optional field independently unset / falsy (\"\", 0, b\"\", False, []) / "
         "truthy (unicode text, binary blobs, large numbers), context info and quoted messages nested to depth 3; complete messages additionally "
         "through the entity classes (stanza <-> entity).  distinct = distinct (schema, shape of set / falsy / truthy fields).")
+RULE += (' String values with inner structure (mimetype parameters, padding, URLs, JIDs); what arrives is also compared with the values handed to the constructors.')
 ASSUMPTIONS = ["google.protobuf's serialisation of the generated e2e_pb2 classes is correct (SerializeToString / ParseFromString are inverse on valid messages)",
                "scalar values are abstracted to {unset, falsy, other}: the converter copies values and only tests them for None / truth"]
 
@@ -23,7 +24,11 @@ def _gen_scalar(r, t, mode):
     if mode == "falsy":
         return ps.falsy(t)
     if t == "str":
-        return r.choice([u"x", u"héllo wörld 世界", u"line1\nline2", u"\U0001F600 emoji", u"a" * r.randint(1, 300)])
+        return r.choice([u"x", u"héllo wörld 世界", u"line1\nline2", u"\U0001F600 emoji", u"a" * r.randint(1, 300),
+                         # values with inner structure that a "normalising" accessor would trim, split, re-case or re-quote
+                         u"audio/ogg; codecs=opus", u'video/mp4; codecs="avc1.42E01E, mp4a.40.2"', u"Image/JPEG", u"  padded  ", u"trailing\n",
+                         u"https://mmg.whatsapp.net/d/f/Abc-123.enc?x=1&y=%2F#frag", u"/v/t62.7118-24/12345_n.enc?oh=ab&oe=5F", u"name.tar.gz", u"a/b\\c:d",
+                         u"4915112345@s.whatsapp.net", u"+49 151 12345", u"0", u"None", u"nul\x00inside", u"tab\there", u"semi;colon,comma=eq"])
     if t == "bytes":
         return bytes(bytearray(r.randrange(256) for _ in range(r.randint(1, 40)))) or b"\x01"
     if t == "int":
@@ -98,7 +103,8 @@ def quote_chain(r, k, required, carrier="extendedtext"):
     return only(r, "message", {"extended_text": ["sub", inner]}, required)
 
 
-def build_obj(name, spec):
+def build_obj(name, spec, given=None):
+    """the attribute object of a spec; `given` (a dict) receives what was handed to the constructors: path -> value, sub-objects as dicts"""
     import random
     vals = {}
     for p, t in ps.flat_fields(name):
@@ -110,8 +116,38 @@ def build_obj(name, spec):
         elif s[0] == "val":
             vals[p] = _gen_scalar(random.Random(s[1]), t, "val")
         else:
-            vals[p] = build_obj(t[4:], s[1])
+            sub = {} if given is not None else None
+            vals[p] = build_obj(t[4:], s[1], sub)
+            if given is not None:
+                given[p] = sub
+            continue
+        if given is not None:
+            given[p] = vals[p]
     return ps.build(name, vals)
+
+
+def _diff_given(name, given, b, path=""):
+    """first difference between what the application handed to the constructors and the fields of attribute object `b`"""
+    import copy
+    fb = ps.flatten(name, b)
+    for p, t in ps.flat_fields(name):
+        va, vb = given[p], fb[p]
+        if t.startswith("sub:"):
+            if va is None or vb is None:
+                if (va is None) != (vb is None):
+                    return (path + p, "unset" if va is None else "set", "unset" if vb is None else "set")
+            else:
+                d = _diff_given(t[4:], va, vb, path + p + ".")
+                if d:
+                    return d
+        elif t == "list":
+            if list(va or []) != list(vb or []):
+                return (path + p, va, vb)
+        elif va is None or vb is None:
+            if va is not vb:
+                return (path + p, va, vb)
+        elif not ps._eq(va, vb):
+            return (path + p, copy.copy(va), vb)
 
 
 def tokens_of(name, obj, table):
@@ -323,7 +359,8 @@ def run_case(chk, stream, case):
     fails = []
     name = case["schema"]
     sid = ps.SCHEMA_IDS[name]
-    obj = build_obj(name, case["spec"])
+    given = {}
+    obj = build_obj(name, case["spec"], given)
     table = {}
     toks = tokens_of(name, obj, table)
     model = chk.driver.ask("pl rt %d %s" % (sid, " ".join(toks)))
@@ -360,6 +397,12 @@ def run_case(chk, stream, case):
             if d[0].endswith("file_length"):
                 sig = "C10:document-file-length-aliased"
         fails.append(oracle(sig, "%s: field %s was %r and comes back as %r" % (ctx, d[0], d[1], d[2])))
+        return fails
+    # ... measured against the values the application handed to the constructors, not against what the composed object says it holds
+    d = _diff_given(name, given, back)
+    if d and not (d[0].endswith("file_length") and (name == "document" or "document" in d[0])):
+        chk.hit("outcome:differs-from-given")
+        fails.append(oracle("C10:composed-value-altered:%s.%s" % (name, d[0]), "%s: field %s was composed as %r and arrives as %r" % (ctx, d[0], d[1], d[2])))
         return fails
     chk.hit("outcome:same")
     # ---- second clause: the parsed payload re-serialises to the same bytes
